@@ -101,7 +101,7 @@ func checkC11(r *Run) int {
 		var out []string
 		for _, k := range keys {
 			// quick: the fields of the shared messages and one plain field per root
-			if strings.Contains(k, "Shared") || strings.Contains(k, "Tiny") || strings.Contains(k, "Stamp") || strings.HasSuffix(k, ".Rev") || strings.HasSuffix(k, ".Who") || strings.HasSuffix(k, ".ID") || strings.HasSuffix(k, ".Label") || strings.HasSuffix(k, ".On") || k == "Alpha.Name" || k == "Beta.Count" || k == "Gamma.KT" || k == "Delta.Only" || strings.HasSuffix(k, ".Meta") {
+			if strings.Contains(k, "Shared") || strings.Contains(k, "Tiny") || strings.Contains(k, "Limits") || strings.HasSuffix(k, ".Hard") || strings.Contains(k, "Stamp") || strings.HasSuffix(k, ".Rev") || strings.HasSuffix(k, ".Who") || strings.HasSuffix(k, ".ID") || strings.HasSuffix(k, ".Label") || strings.HasSuffix(k, ".On") || k == "Alpha.Name" || k == "Beta.Count" || k == "Gamma.KT" || k == "Delta.Only" || strings.HasSuffix(k, ".Meta") {
 				out = append(out, k)
 			}
 		}
